@@ -108,10 +108,19 @@ def explore(chk):
     writers = [("srt", pycaption.SRTWriter), ("webvtt", pycaption.WebVTTWriter), ("dfxp", pycaption.DFXPWriter),
                ("single", SinglePositioningDFXPWriter), ("legacy", LegacyDFXPWriter), ("sami", pycaption.SAMIWriter),
                ("microdvd", pycaption.MicroDVDWriter)]
-    for i in range(N):
+    # corner sets that do not depend on the seed: cues inside the first millisecond, zero-length cues, a cue that ends where
+    # the next one starts, a timespan that comes back after a different one
+    FIXED = [[[(0, 400), (2000000, 3000000), (3000000, 4000000), (5000000, 6000000)]],
+             [[(0, 0), (1000, 2000), (2000, 2000), (2500, 3999)]],
+             [[(999, 1000), (1000, 1001), (1001, 2000400), (2000900, 3000000)]],
+             [[(1000000, 2000000), (1000000, 3000000), (1000000, 2000000), (4000000, 5000000)]],
+             [[(0, 999), (40000, 79999)], [(0, 400), (1000000, 1000400)]]]
+    for i in range(N + len(FIXED)):
         nl = rng.choice([1, 1, 1, 2])
         langs_times = [rand_times(rng, rng.randint(1, 8)) for _ in range(nl)]
         langs_times = [t for t in langs_times if t]
+        if i >= N:
+            langs_times = FIXED[i - N]
         if not langs_times:
             continue
         abstract = build(langs_times, rng)
